@@ -228,8 +228,12 @@ def instrumented_all(args) -> dict:
     p.start()
     b.close()
     out: dict = {}
+    timed_out = False
     try:
-        while len(out) < len(names) and a.poll(120):
+        while len(out) < len(names):
+            if not a.poll(900):  # big stdlib modules under CHECKED on a loaded machine take minutes
+                timed_out = True
+                break
             name, r = a.recv()
             out[name] = r
     except EOFError:
@@ -240,7 +244,10 @@ def instrumented_all(args) -> dict:
         p.join(2)
     missing = [n for n in names if n not in out]
     if len(names) == 1 and missing:
-        out[names[0]] = {"ok": False, "error": f"child died or hung (exit code {p.exitcode})"}
+        # killed by this harness after the time limit: no observation (drift); died on its own: a crash
+        out[names[0]] = {"ok": False, "timeout": timed_out,
+                         "error": ("no answer within the time limit" if timed_out
+                                   else f"child died (exit code {p.exitcode})")}
     else:
         for name in missing:  # attribute a crash to the function that causes it
             out.update(instrumented_all(([name], metrics, moddir)))
